@@ -1974,14 +1974,16 @@ class ReferenceManager:
         if refs is not None:        # None in case prev_ref is derived
             if prev_ref in refs:
                 refs.remove(prev_ref)
-            if not refs:    # ref is empty
-                del self._valid_to_refs[prev_valid]
-                spec = self._manager.get_spec_from_value(self._model.interface, prev_val)
-                if spec:
-                    self._manager.del_spec(spec)
 
         if not isinstance(value, Interface):
             self._valid_to_refs.setdefault(id(value), []).append(refdict[name])
+
+        # Check after adding the new ref, as value can be the previous value
+        if refs is not None and not refs:    # ref is empty
+            del self._valid_to_refs[prev_valid]
+            spec = self._manager.get_spec_from_value(self._model.interface, prev_val)
+            if spec:
+                self._manager.del_spec(spec)
 
     def del_all_spec(self):
         specs = self.specs.copy()
